@@ -930,7 +930,11 @@ func planC08(prop string, seed uint64, tier string, idx int) *Plan {
 			op.From = 1 + g.r.intn(g.nrepos())
 			op.A = 3
 		case 12:
-			g.add(Op{K: "sleep", Ms: g.sleepAround(grace)})
+			ms := g.sleepAround(grace)
+			if f := k.freq(); f > 0 && ms > f.Milliseconds()*80 {
+				ms = f.Milliseconds() * 80
+			}
+			g.add(Op{K: "sleep", Ms: ms})
 			continue
 		case 13:
 			g.add(Op{K: "settle"})
